@@ -702,6 +702,17 @@ class AbsMachine:
                 cur = self.ev(a.target, e2, chosen)
                 v = self._binop(a.op, cur, self.ev(a.value, e2, chosen))
                 self._bind(a.target, v, e2)
+            elif isinstance(a, ast.Expr) and isinstance(a.value, ast.Yield) and e2.get("#trace_yields"):
+                v = self.ev(a.value.value, e2, chosen) if a.value.value is not None else None
+                e2["trace"] = tuple(e2.get("trace", ())) + (f"YIELD({v!r})",)
+            elif isinstance(a, ast.Expr) and isinstance(a.value, ast.YieldFrom) and e2.get("#trace_yields"):
+                v = self._deref(self.ev(a.value.value, e2, chosen), e2)
+                if isinstance(v, AList):
+                    v = v.items
+                if isinstance(v, tuple):
+                    e2["trace"] = tuple(e2.get("trace", ())) + tuple(f"YIELD({x!r})" for x in v)
+                else:
+                    e2["trace"] = tuple(e2.get("trace", ())) + ("YIELD_FROM(UNKNOWN)",)
             elif isinstance(a, ast.Expr):
                 self.ev(a.value, e2, chosen)
             elif isinstance(a, ast.Return):
